@@ -46,12 +46,31 @@ var VerifWaitReason uint8 = 9
 //go:linkname verifGopark runtime.gopark
 func verifGopark(unlockf func(uintptr, *uintptr) bool, wg *uintptr, reason uint8, traceReason uint8, traceskip int)
 
+// VerifParkHook, when non-nil, may take over a park: it receives the address of
+// the sleeper's waitingG word and returns true if it simulated the commit and
+// the wait itself (schedule-controlled runs). Returning false parks for real.
+var VerifParkHook func(wg *uintptr) bool
+
+// VerifReadyHook, when non-nil, may take over the wake-up of a simulated G
+// value stored by VerifParkHook; it returns false for real Gs.
+var VerifReadyHook func(g uintptr) bool
+
 // verifPark parks the calling goroutine exactly like the gopark call it
 // stands in for (commitSleep still decides the commit), but through a
 // declaration that matches the runtime's current signature.
 func verifPark(wg *uintptr) bool {
+	if h := VerifParkHook; h != nil && h(wg) {
+		return true
+	}
 	verifGopark(commitSleep, wg, VerifWaitReason, 0, 0)
 	return true
+}
+
+func verifReady(g uintptr) bool {
+	if h := VerifReadyHook; h != nil {
+		return h(g)
+	}
+	return false
 }
 
 func verifPoint(id int, p unsafe.Pointer) {
@@ -65,3 +84,7 @@ func (s *Sleeper) VerifWaitingG() uintptr { return atomic.LoadUintptr(&s.waiting
 
 // VerifSharedEmpty reports whether the shared list of asserted wakers is empty.
 func (s *Sleeper) VerifSharedEmpty() bool { return atomic.LoadPointer(&s.sharedList) == nil }
+
+// VerifKey returns the address of the sleeper's waitingG word (the value
+// VerifParkHook receives), so a harness can tell sleepers apart.
+func (s *Sleeper) VerifKey() *uintptr { return &s.waitingG }
